@@ -161,7 +161,7 @@ def termination_rule(ctx, facts, cfg, e4, rid='C01.c'):
             info = r[3] if len(r) > 3 else None
             f = facts.fns[key]
             at = f['blocks'][hb]['term'].get('at') or f['at']
-            ok = measure is not None and info is not None and info['kind'] in ('const', 'len')
+            ok = measure is not None and info is not None and info['kind'] in ('const', 'len', 'slice-iter')
             ctx.instance(rid, 'loop in %s at %s: measure %s; %s' % (key, at, measure, text), ok=ok, site=at)
             out.append((key, hb, at, measure, info))
             if not ok:
